@@ -123,9 +123,22 @@ def scenarios_c11(quick, seed):
     return out
 
 
+def scenarios_c10(quick, seed):
+    """concurrent half of C10: BulkGet / Get whose flights are shared, all loader outcomes"""
+    n = 96 if quick else 2000
+    out = []
+    for j in range(n):
+        out.append({"getters": 1 + j % 3, "bulk": 1 + (j // 3) % 2, "refreshers": 0, "writers": [], "preload": 0,
+                    "outcomes": [["nf"], ["val", "nf"], ["nf", "err"], ["val"]][j % 4], "policy": ["random", "pct", "random+inflight", "pct+inflight"][j % 4],
+                    "seed": seed * 100000 + 60000 + j, "script": [], "refresh": 0, "bulkkeys": 1 + (j // 6) % 2, "hgate": 0, "bulkref": 0, "inloader": [], "expiry": 0})
+    return out
+
+
 def scenarios(prop, quick, seed):
     if prop == "C11":
         return scenarios_c11(quick, seed)
+    if prop == "C10":
+        return scenarios_c10(quick, seed)
     n = 320 if quick else 20000
     kinds = [["set"], ["invalidate"], ["compute"], ["evict"], ["set", "invalidate"], ["setifabsent"], ["invalidateAll"], [],
              ["compute", "set"], ["invalidate", "invalidate"], ["setifabsent", "setifabsent"], ["computeinv"], ["computeinv", "computeinv"]]
@@ -156,6 +169,9 @@ def scenarios(prop, quick, seed):
             # the write happens inside the loader itself (user code): a whole call between the start of the load and its installation
             sc.update(getters=1 + (j // 16) % 2, bulk=0, refreshers=(j // 32) % 2, refresh=(j // 32) % 2, preload=(j // 32) % 2, writers=[], outcomes=[["val"], ["nf"], ["val"], ["err"]][(j // 8) % 4],
                       inloader=[["set"], ["invalidate"], ["compute"], ["computeinv"], ["invalidateAll"], ["set", "invalidate"]][(j // 16) % 6])
+        if fam == 5 and (j // 8) % 2 == 0:
+            # failing loads with joiners, the completion step stalled: late callers must load afresh
+            sc.update(getters=3, bulk=0, refreshers=0, refresh=0, preload=0, writers=[], outcomes=["err"], policy=sc["policy"].split("+")[0] + "+atinstall")
         if fam == 0 and (j // 8) % 5 == 4:
             # the entry written during the load has expired (unswept) by the time the load completes: the load must stay cancelled
             sc.update(getters=1, bulk=0, refreshers=0, refresh=0, preload=0, writers=[], outcomes=["val"], expiry=1,
@@ -205,6 +221,8 @@ def run(prop, tier, replay=None, collect_only=False):
             if prop == "C11":
                 inst = [("g1r2w1", lr_cfg([1], [3, 4], [11], "WK_set", True, preload=True))]
                 neg = []
+            elif prop == "C10":
+                inst, neg = [], []
             elif not quick:
                 inst += [("g1r2w2p", lr_cfg([1], [3, 4], [11, 12], "WK_two", False, preload=True)), ("g2r1w1", lr_cfg([1, 2], [3], [11], "WK_set", False)),
                          ("g2r1w1inv", lr_cfg([1, 2], [3], [11], "WK_inv", False, preload=True))]
